@@ -66,6 +66,13 @@ class StepCounter:
         return False
 
 
+def preload():
+    """Import mwlib in an order that works: importing mwlib.parser.templ.* first runs into the
+    circular import evaluate -> metabook -> expander -> evaluate."""
+    import mwlib.network.fetch  # noqa: F401
+
+
 def quiet_logging():
     import logging
     logging.disable(logging.CRITICAL)
+    preload()
